@@ -14,7 +14,7 @@ RULE = ("Cases: pairs (a, b) of generated curves/surfaces/volumes: b a deep copy
 ASSUMPTIONS = ["eq: changes are >= 1e-5 and 'equal' pairs are bit-identical, so the verdict is the same for every comparison tolerance <= 1e-6",
                "fine: the comparison tolerance is the documented 10**-precision ('number of decimal places', default 18); changes of >= 100 tolerances must be seen, nothing is asserted about changes below the tolerance"]
 
-CHANGES = ["coordinate", "weight", "weight-only-w", "knot", "degree", "size", "kind", "rationality", "rationality-dim", "none"]
+CHANGES = ["coordinate", "weight", "weight-only-w", "knot", "degree", "size", "kind", "rationality", "rationality-dim", "none", "degree-only"]
 
 
 @st.composite
@@ -179,6 +179,17 @@ def check_eq(case, ctx):
     c = copy.deepcopy(a)
     ctx.check((a == c) is True and (c == a) is True, "deepcopy-unequal", "a deep copy compares unequal to its source")
     ctx.check((a != c) is False, "ne-not-negation", "a != deepcopy(a) is True")
+    if case["change"] == "degree-only":
+        # nothing but the degree of ONE direction is changed on a deep copy (the knot vectors are left as they are)
+        b = copy.deepcopy(a)
+        sfx1 = [""] if d["kind"] == "curve" else ["_u", "_v", "_w"][:len(d["degree"])]
+        k1 = case["idx"] % len(sfx1)
+        setattr(b, "degree" + sfx1[k1], d["degree"][k1] + 1)
+        ctx.label("change:degree-only")
+        ctx.nt(True, "single-change")
+        ctx.check((a == b) is False and (b == a) is False, "change-not-detected",
+                  "shapes differing only in the degree of direction %d (%d vs %d) compare equal" % (k1, d["degree"][k1], d["degree"][k1] + 1))
+        return
     v = _variant(case)
     ctx.label("change:" + case["change"])
     ctx.label("kind:" + d["kind"])
@@ -238,7 +249,7 @@ def _fine_cases(draw, tier):
     return {"defn": d, "what": draw(st.sampled_from(["knot", "knot", "coordinate", "weight"])), "idx": draw(st.integers(0, 10 ** 6)),
             "coord": draw(st.integers(0, 5)), "precision": draw(st.sampled_from([18, 18, 18, 16, 14, 12, 9, 6])),
             "factor": draw(st.sampled_from([100.0, 1000.0, 4096.0, 1048576.0])), "sign": draw(st.sampled_from([1, -1])),
-            "route": draw(st.sampled_from(["copy", "rebuild"]))}
+            "route": draw(st.sampled_from(["copy", "rebuild"])), "scale_exp": draw(st.sampled_from([0, 0, 12, 20]))}
 
 
 def _bump(x, step, sign, tol):
@@ -256,6 +267,11 @@ def check_fine(case, ctx):
     """The comparison tolerance is the documented one (10**-precision, 'number of decimal places'): a change of one
     component by 100 tolerances or more - far below anything a drawing would show - still makes the shapes unequal."""
     d = case["defn"]
+    if case.get("scale_exp"):
+        # model units can be large: the tolerance stays the absolute 10**-precision
+        d = dict(d)
+        d["P"] = [[c * 2.0 ** case["scale_exp"] for c in q] for q in d["P"]]
+        ctx.label("coordinates-of-large-magnitude")
     pr = case["precision"]
     tol = 10.0 ** -pr
     a = build.make(d, precision=pr)
